@@ -77,7 +77,7 @@ def orphan_scenario(ctx, i, rng):
     async def main(loop):
         w = World(seed=seed, loop=loop, n_tokens=rng.choice([1, 2]))
         await w.boot()
-        fz = Fuzzer(w, random.Random(seed), {'worker_reject_p': 0, 'fault_schedule_db_p': 0, 'early_job_started_p': 0})
+        fz = Fuzzer(w, random.Random(seed), {'worker_reject_p': 0, 'fault_schedule_db_p': 0, 'early_job_started_p': 0, 'early_job_complete_p': 0})
         from batch.front_end.validate import validate_and_clean_jobs
         accepted = []   # (instance name, batch, job, attempt)
         deletes = []    # (instance name, batch, job)
